@@ -195,6 +195,31 @@ func H_C07_collection() {
 	vCover("reached")
 }
 
+// H_C07_binding: inside the braces the binding shadows a same-named top-level
+// key in every spelling of the selector that goes through it.
+func H_C07_binding() {
+	v, w := vInt8(), vInt8()
+	d := map[string]interface{}{"l": []interface{}{map[string]interface{}{"k": v}}, "n": []interface{}{v}, "p": map[string]interface{}{"k": w}, "q": w}
+	q := []string{"any ", "all "}[vChoose(2)]
+	var forms []string
+	if vBool() {
+		forms = []string{q + `l as p { p.k == 1 }`, q + `l as p { p["k"] == 1 }`, q + `l as p { "/p/k" == 1 }`, q + "l as _, p { p[`k`] == 1 }", q + `"/l" as p { "/p/k" == 1 }`}
+	} else {
+		forms = []string{q + `n as q { q == 1 }`, q + `n as q { "/q" == 1 }`, q + `n as _, q { "/q" == 1 }`, q + `"/n" as q { q == 1 }`}
+	}
+	var first int
+	for i, f := range forms {
+		o, _, _ := evalO(mustCreate(f), d)
+		if i == 0 {
+			first = o
+			vAssert(o != oError && (o == oTrue) == (v == 1), "the binding, not the same-named top-level key, is what the body sees: "+f)
+		} else {
+			vAssert(o == first, "every spelling of a selector through the binding gives one outcome: "+f)
+		}
+	}
+	vCover("reached")
+}
+
 // H_C07_exact: parts match keys and field names exactly (case, no trimming).
 type sC07 struct {
 	Name  string
